@@ -786,6 +786,16 @@ def r3(ctx: Ctx) -> None:
                     cfilt = [n for n in ast.walk(caller.node) if isinstance(n, ast.ListComp)
                              and any("is not None" in norm_text(i) for gen in n.generators for i in gen.ifs)]
                     good = {t.id for n in ast.walk(caller.node) if isinstance(n, ast.Assign) and n.value in cfilt for t in n.targets if isinstance(t, ast.Name)}
+
+                    def _filtering_helper(v_: ast.AST) -> bool:
+                        """`values = _non_null_values()`: a sibling helper every return of which is such a filtering comprehension"""
+                        if not (isinstance(v_, ast.Call) and isinstance(v_.func, ast.Name) and v_.func.id in f.nested):
+                            return False
+                        rets_ = [r_.value for r_ in ast.walk(f.nested[v_.func.id].node) if isinstance(r_, ast.Return)]
+                        return bool(rets_) and all(isinstance(r_, ast.ListComp) and any(
+                            "is not None" in norm_text(i) for gen in r_.generators for i in gen.ifs) for r_ in rets_)
+                    good |= {t.id for n in ast.walk(caller.node) if isinstance(n, ast.Assign) and _filtering_helper(n.value)
+                             for t in n.targets if isinstance(t, ast.Name)}
                     for call in [n for n in ast.walk(caller.node) if isinstance(n, ast.Call) and isinstance(n.func, ast.Name) and n.func.id == nf.name]:
                         for pn, a in zip(pnames, call.args):
                             if pn in src:
